@@ -39,7 +39,9 @@ pub const SKINS: [Skin; 11] = [
 ];
 
 fn ids_text(ids: &Value, skin: &Skin) -> Option<String> {
-  let v: Vec<&str> = ids.as_array().unwrap().iter().map(|x| x.as_str().unwrap()).collect();
+  // the second rule of the layouts (r2) is called `r1x` in rule files and comments: the first rule's id is a proper prefix
+  // of it, and a comment that lists one of them says nothing about the other
+  let v: Vec<&str> = ids.as_array().unwrap().iter().map(|x| match x.as_str().unwrap() { "r2" => "r1x", o => o }).collect();
   let (open, close) = if skin.python { ("# ", "") } else if skin.block { ("/* ", " */") } else { ("// ", "") };
   if v == ["-"] {
     None
@@ -108,7 +110,7 @@ fn rules_json(lang: &str) -> Vec<Value> {
     return vec![
       json!({"id": "r1", "language": lang, "severity": "warning", "message": "m1", "fix": "fixed()",
              "rule": {"kind": "call_expression", "regex": "^(a1|b)\\("}}),
-      json!({"id": "r2", "language": lang, "severity": "warning", "message": "m2",
+      json!({"id": "r1x", "language": lang, "severity": "warning", "message": "m2",
              "rule": {"kind": "call_expression", "regex": "^(a2|b)\\("}}),
     ];
   }
@@ -116,7 +118,7 @@ fn rules_json(lang: &str) -> Vec<Value> {
     // r1 has a fix: with separate_fix its matches travel as diffs, and must be silenced just the same
     json!({"id": "r1", "language": lang, "severity": "warning", "message": "m1", "fix": "fixed()",
            "rule": {"any": [{"pattern": "a1($$$)"}, {"pattern": "b($$$)"}]}}),
-    json!({"id": "r2", "language": lang, "severity": "warning", "message": "m2",
+    json!({"id": "r1x", "language": lang, "severity": "warning", "message": "m2",
            "rule": {"any": [{"pattern": "a2($$$)"}, {"pattern": "b($$$)"}]}}),
   ]
 }
@@ -135,7 +137,7 @@ fn classify(src: &str, hits: &[(String, usize, usize)], off: usize) -> (Vec<Valu
     // statements are separated by "; " - count the calls that start before this column
     let before: String = text.chars().take(*col).collect();
     let k = before.matches(';').count() + 1;
-    findings.push(json!({"line": line0 + 1 - off, "k": k, "rule": rule}));
+    findings.push(json!({"line": line0 + 1 - off, "k": k, "rule": if rule == "r1x" { "r2" } else { rule.as_str() }}));
   }
   unused.sort();
   (findings, unused)
